@@ -921,14 +921,15 @@ pub fn c29(args: &Args) -> i32 {
 // ---------------------------------------------------------------------------
 // C33: declared schemas are enforced
 
-const C33_TYPES: [&str; 8] = ["int", "float", "string", "bool", "vector", "any", "symbol", "timestamp"];
-const C33_VALUES: [(&str, &str); 6] = [("int", "1"), ("float", "1.5"), ("string", "\"a\""), ("bool", "true"), ("vector", "[1.0, 2.0]"), ("int", "7")];
+const C33_TYPES: [&str; 9] = ["int", "float", "string", "bool", "vector", "any", "symbol", "timestamp", "vector2"];
+const C33_VALUES: [(&str, &str); 7] = [("int", "1"), ("float", "1.5"), ("string", "\"a\""), ("bool", "true"), ("vector", "[1.0, 2.0]"), ("int", "7"), ("vector3", "[1.0, 2.0, 3.0]")];
 
 /// Harness's own conformance table: Some(true) must be accepted, Some(false) must be rejected, None not asserted.
 fn conforms(ty: &str, vkind: &str) -> Option<bool> {
     match (ty, vkind) {
         ("any", _) => Some(true),
-        ("int", "int") | ("float", "float") | ("string", "string") | ("bool", "bool") | ("vector", "vector") => Some(true),
+        ("int", "int") | ("float", "float") | ("string", "string") | ("bool", "bool") | ("vector", "vector") | ("vector", "vector3") | ("vector2", "vector") => Some(true),
+        ("vector2", "vector3") => Some(false), // dimension is part of the declared type
         ("float", "int") => None,       // numeric widening: not settled by the property
         ("symbol", "string") => None,   // symbols vs strings: not settled
         ("timestamp", "int") => None,   // timestamps are integers on the wire
@@ -952,6 +953,7 @@ fn lit_value(i: usize) -> Value {
         2 => Value::string("a"),
         3 => Value::Bool(true),
         4 => Value::vector(vec![1.0, 2.0]),
+        6 => Value::vector(vec![1.0, 2.0, 3.0]),
         _ => Value::Int64(7),
     }
 }
@@ -964,6 +966,7 @@ fn schema_type(t: &str) -> inputlayer::schema::SchemaType {
         "string" => S::String,
         "bool" => S::Bool,
         "vector" => S::Vector { dim: None },
+        "vector2" => S::Vector { dim: Some(2) },
         "any" => S::Any,
         "symbol" => S::Symbol,
         _ => S::Timestamp,
@@ -982,7 +985,7 @@ fn declare(env: &Env, tys: &[&'static str]) -> Result<(), String> {
 pub fn c33(args: &Args) -> i32 {
     quiet_panics();
     let run = Run::new(args, "model_checking", 55.0, 900.0);
-    run.set_rule("schemas over every declared type (int, float, string, bool, vector, any, symbol, timestamp) in arity 1 and 2 x inserts of 1-2 tuples over the literal pool {1, 1.5, \"a\", true, [1.0,2.0], 7} through the persistent path (+r(..), +r[..] via Handler::query_program) in the orders schema->insert->insert and insert->schema, and through the session insert path (Handler::session_insert_ephemeral); schemas are declared through StorageEngine::register_or_update_schema_in, the call the handler makes for `+r(c: t)`. Oracle: harness conformance table (Some(true) must be stored, Some(false) must reject the whole batch, ambiguous pairs not asserted); after every step every stored tuple conforms to the declared schema. non-trivial = cases containing at least one definitely non-conforming value");
+    run.set_rule("schemas over every declared type (int, float, string, bool, vector, vector(2), any, symbol, timestamp) in arity 1 and 2 x inserts of 1-2 tuples over the literal pool {1, 1.5, \"a\", true, [1.0,2.0], 7, [1.0,2.0,3.0]} through the persistent path (+r(..), +r[..] via Handler::query_program) in the orders schema->insert->insert and insert->schema, and through the session insert path (Handler::session_insert_ephemeral); schemas are declared through StorageEngine::register_or_update_schema_in, the call the handler makes for `+r(c: t)`. Oracle: harness conformance table (Some(true) must be stored, Some(false) must reject the whole batch, ambiguous pairs not asserted); after every step every stored tuple conforms to the declared schema. non-trivial = cases containing at least one definitely non-conforming value");
     // build cases
     #[derive(Clone, Debug)]
     struct Case {
@@ -1007,7 +1010,7 @@ pub fn c33(args: &Args) -> i32 {
         }
     }
     for t1 in ["int", "string", "float", "any"] {
-        for t2 in ["int", "bool", "vector"] {
+        for t2 in ["int", "bool", "vector", "vector2"] {
             for a in 0..nv {
                 for b in 0..nv {
                     cases.push(Case { tys: vec![t1, t2], batch1: vec![vec![a, b]], batch2: vec![], mode: 0 });
